@@ -51,7 +51,8 @@ fn cv(kind: u8, raw: u16) -> CV {
         4 => CV::Float([0.0f32, -0.0, 1.5, -1.5, f32::MAX, f32::MIN_POSITIVE, 16777216.0, 0.1, 3.0, 1e-10][r % 10].to_bits()),
         5 => CV::Double([0.0f64, -0.0, 1.5, -1.5, f64::MAX, f64::MIN_POSITIVE, 9007199254740993.0, 0.1, 3.0, 1e-300][r % 10].to_bits()),
         6 => {
-            let n = [0usize, 1, 2, 7, 8, 9, 15, 16, 17, 40, 127, 128, 300][r % 13];
+            // lengths around every power of two up to 2^8 (length prefixes are variable-width), and a few around 2^13
+            let n = [0usize, 1, 2, 3, 4, 5, 7, 8, 9, 15, 16, 17, 31, 32, 33, 40, 63, 64, 65, 127, 128, 129, 255, 256, 257, 300, 0, 1, 8, 64, 8191, 8192, 8193, 8255, 16384][r % 35];
             CV::Text((0..n).map(|i| b'a' + ((i + r) % 26) as u8).collect())
         }
         _ => CV::Bool(r % 2 == 1),
